@@ -65,7 +65,7 @@ def check_split_index(rc: RuleCtx, rule: str, m: rm.LoopModel, tag: str, allow_m
                 base, lo, hi = xa.args
                 ba = single_atom(base)
                 if lo.is_const() is not None and lo.is_const() == c:
-                    if ba is not None and ba.name == rm.DIST_SLOT and len(ba.args) == 3 and all(p.equals(q) for p, q in zip(ba.args, want_args)):
+                    if ba is not None and ba.name.startswith("slot:") and len(ba.args) == 3 and all(p.equals(q) for p, q in zip(ba.args, want_args)):
                         good = True
                     else:
                         why = "the distances are not distance_points(pt, pt[0], pt[-1]) of the popped range"
